@@ -196,6 +196,38 @@ def chi_r(A):
     return R
 
 
+def _lmat_table():
+    """(index, sign) tables of the 4x4 left-multiplication block: L(q)[p,c] = sign[p,c] * q[index[p,c]]."""
+    idx = np.zeros((4, 4), dtype=int)
+    sgn = np.zeros((4, 4))
+    for a in range(4):
+        La = _Lmat([1.0 if t == a else 0.0 for t in range(4)])
+        for p in range(4):
+            for c in range(4):
+                if La[p, c] != 0:
+                    idx[p, c], sgn[p, c] = a, La[p, c]
+    return idx, sgn
+
+
+def chi_r_copy(A, blocked=False):
+    """chi_r / chi_r_blocked by COPYING (and negating) components - no arithmetic, so signed zeros, infinities and
+    NaN are placed exactly (the Kronecker-sum forms above compute w*1 + x*0 + ... and are only valid for finite
+    values)."""
+    A = np.asarray(A, dtype=float)
+    m, n, _ = A.shape
+    idx, sgn = _lmat_table()
+    R = np.zeros((4 * m, 4 * n))
+    for p in range(4):
+        for c in range(4):
+            pl = A[:, :, idx[p, c]]
+            pl = pl if sgn[p, c] > 0 else np.negative(pl)
+            if blocked:
+                R[p * m:(p + 1) * m, c * n:(c + 1) * n] = pl
+            else:
+                R[p::4, c::4] = pl
+    return R
+
+
 def chi_r_blocked(A):
     """Real embedding, component-blocked layout: 4x4 grid of m x n blocks,
     grid block (p,q) = coefficient plane sum_a L(e_a)[p,q] * A_a."""
